@@ -23,6 +23,7 @@ RULE = (
     '; pass 6: batched KISS-GP / SGPR / RFF models; Nystrom cells with inducing points at training inputs; interpolation over the whole grid range incl. the first / last cells (nearest-node rule) and the boundary nodes'
     '; pass 7: Nystrom cells beyond the Cholesky size and copies looked at after the original moved; KISS-GP under fast_pred_samples (covariance handed out as a root) on the Cholesky and CG sides'
     "; pass 8: Nystrom diagonal paths (diag=True, lazy diagonal) for two different point sets; structured strategies reloaded in evaluation mode against a freshly built model; WISKI chains under fast_pred_var"
+    "; pass 9: WISKI sibling fantasies (further children of the root and of the first child)"
 )
 REQUIRED = ["multitask_kron", "index_kernel", "lcm_kernel", "grid_kernel_dense", "kiss_kernel_WKW", "nystrom", "rff_features", "strategy_equals_dense_conditional", "sgpr_titsias_bound", "sgpr_predictive_equations",
             "wiski_fantasy", "interp_sum_to_one", "interp_exact_at_nodes", "interp_reproduces_quadratics", "interp_matrix_equals_tensor_product", "kiss_converges", "path:InterpolatedPredictionStrategy.exact_prediction", "path:SGPRPredictionStrategy.exact_prediction"]
